@@ -22,10 +22,11 @@ import hashlib
 from vlib import core, fortgen
 from vlib import minifort as mf
 
-OFF = 1000000          # ids of new node objects   = id of the original + OFF
-SOFF = 1000000         # ids of new symbol objects = id of the original + SOFF
-OOFF = 1000000         # ids of new datatype / interface objects
-ALIEN = 5000000        # objects the harness cannot relate to anything
+# (small numbers on purpose: coqc spends ~5 ms elaborating every 7-digit decimal numeral)
+OFF = 3000             # ids of new node objects   = id of the original + OFF
+SOFF = 3000            # ids of new symbol objects = id of the original + SOFF
+OOFF = 3000            # ids of new datatype / interface objects
+ALIEN = 9000           # objects the harness cannot relate to anything
 
 
 class OutOfSubset(Exception):
@@ -64,12 +65,20 @@ def write_tree(node):
 
 # ------------------------------------------------------------------ program generator
 FEATURES = ["bound_param", "kind_param", "init_ref", "dtype", "import", "args", "module", "function",
-            "modkind", "save_init", "call"]
+            "modkind", "save_init", "call", "section"]
 
 
 def gen_source(rng, k):
     """Fortran source exercising symbols inside datatypes / kinds / initial values, nested scopes, calls."""
-    g = fortgen.Gen(rng, max_depth=2, allow_exit=False, two_d=rng.random() < 0.3)
+    # (the reader turns any negative lower bound into an UnsupportedFortranType: keep bounds >= 0)
+    arrays = {}
+    for a in ["a", "b", "c"]:
+        lb = rng.choice([1, 1, 0, 2, 3])
+        arrays[a] = [(lb, lb + rng.choice([5, 6, 8]))]
+    if rng.random() < 0.3:
+        lb1, lb2 = rng.choice([1, 0]), rng.choice([1, 2])
+        arrays["d"] = [(lb1, lb1 + 4), (lb2, lb2 + 4)]
+    g = fortgen.Gen(rng, arrays=arrays, max_depth=2, allow_exit=False)
     stmts = g.program(rng.randint(2, 4))
     feats = set(f for f in FEATURES if rng.random() < 0.45)
     if "save_init" in feats:
@@ -96,6 +105,11 @@ def gen_source(rng, k):
     if "dtype" in feats:
         decl += ["type :: tt", "  integer :: f", "  integer :: arr(4)", "end type tt", "type(tt) :: tv"]
         body += ["tv%f = s", "tv%arr(2) = tv%f + 1"]
+    if "section" in feats:                                  # array sections: Range nodes with Literal children
+        lo = max(arrays["a"][0][0], arrays["b"][0][0])
+        hi = min(arrays["a"][0][1], arrays["b"][0][1])
+        body.append("a(%d:%d) = b(%d:%d) + 1" % (lo, hi, lo, hi))
+        body.append("c(%d:%d:2) = s" % (arrays["c"][0][0], arrays["c"][0][1]))
     if "import" in feats:
         pre.append("use ext%d, only: ev" % k)
         body.append("s = s + ev")
@@ -278,7 +292,7 @@ class Ser:
                 pay = "Scalar:%s:%s" % (dt.intrinsic.name, dt.precision)
         elif k == "ArrayType":
             pay = "Array("
-            for d in dt.shape:
+            for d in dt._shape:            # (.shape re-validates and may raise after an edit)
                 if isinstance(d, S.ArrayType.ArrayBounds):
                     for e in (d.lower, d.upper):
                         if isinstance(e, S.ArrayType.Extent):
@@ -531,36 +545,41 @@ class Obs:
 
 
 # ------------------------------------------------------------------ Coq printing
+# (numbers in hexadecimal: coqc elaborates a distinct decimal numeral of scope N in ~14 ms, a hexadecimal one in 0.5 ms)
+def H(n):
+    return hex(n)
+
+
 def cq_slot(s):
-    return "NoSlot" if s is None else "(%s %d)" % ("Rebound" if s[0] == "R" else "Plain", s[1])
+    return "NoSlot" if s is None else "(%s %s)" % ("Rebound" if s[0] == "R" else "Plain", H(s[1]))
 
 
 def cq_node(t):
-    tab = "None" if t[3] is None else "(Some %s)" % core.coq_list("(%d,%d)" % p for p in t[3])
-    return "(Node %d %d %s %s %s)" % (t[0], t[1], cq_slot(t[2]), tab, core.coq_list(cq_node(c) for c in t[4]))
+    tab = "None" if t[3] is None else "(Some %s)" % core.coq_list("(%s,%s)" % (H(a), H(b)) for a, b in t[3])
+    return "(Node %s %s %s %s %s)" % (H(t[0]), H(t[1]), cq_slot(t[2]), tab, core.coq_list(cq_node(c) for c in t[4]))
 
 
 def cq_sym(r):
     name, typed, sdt, init, intf = r
-    return "{| sname := %d; styped := %s; sdt := %d; sinit := %s; sintf := %s |}" % (
-        name, "true" if typed else "false", sdt, "None" if init is None else "(Some %s)" % cq_node(init),
-        "(ILocal %d)" % intf[1] if intf[0] == "L" else "(IImport %d)" % intf[1])
+    return "(Build_sym %s %s %s %s %s)" % (
+        H(name), "true" if typed else "false", H(sdt), "None" if init is None else "(Some %s)" % cq_node(init),
+        "(ILocal %s)" % H(intf[1]) if intf[0] == "L" else "(IImport %s)" % H(intf[1]))
 
 
 def cq_obj(o):
-    return "{| obounds := %s; osyms := %s; opay := %d |}" % (
-        core.coq_list(cq_node(e) for e in o[0]), core.coq_list(str(x) for x in o[1]), o[2])
+    return "(Build_aobj %s %s %s)" % (
+        core.coq_list(cq_node(e) for e in o[0]), core.coq_list(H(x) for x in o[1]), H(o[2]))
 
 
 def cq_case(ser, t, obs, ct, safe, hyps, text_equal):
     ss, oo = closure(ser, t)
-    return ("{| c_syms := %s; c_objs := %s; c_root := %s; c_off := %d; c_soff := %d; c_ooff := %d; "
+    return ("{| c_syms := %s; c_objs := %s; c_root := %s; c_off := %s; c_soff := %s; c_ooff := %s; "
             "c_copy := %s; c_csyms := %s; c_cobjs := %s; c_safe := %s; c_hyps := %s; c_text_equal := %s |}" % (
-                core.coq_list("(%d, %s)" % (s, cq_sym(ser.syms[s])) for s in sorted(ss)),
-                core.coq_list("(%d, %s)" % (o, cq_obj(ser.objs[o])) for o in sorted(oo)),
-                cq_node(t), OFF, SOFF, OOFF, cq_node(ct),
-                core.coq_list("(%d, %s)" % (s, cq_sym(r)) for s, r in sorted(obs.csyms.items())),
-                core.coq_list("(%d, %s)" % (o, cq_obj(r)) for o, r in sorted(obs.cobjs.items())),
+                core.coq_list("(%s, %s)" % (H(s), cq_sym(ser.syms[s])) for s in sorted(ss)),
+                core.coq_list("(%s, %s)" % (H(o), cq_obj(ser.objs[o])) for o in sorted(oo)),
+                cq_node(t), H(OFF), H(SOFF), H(OOFF), cq_node(ct),
+                core.coq_list("(%s, %s)" % (H(s), cq_sym(r)) for s, r in sorted(obs.csyms.items())),
+                core.coq_list("(%s, %s)" % (H(o), cq_obj(r)) for o, r in sorted(obs.cobjs.items())),
                 "true" if safe else "false", "true" if hyps else "false", "true" if text_equal else "false"))
 
 
@@ -626,6 +645,18 @@ def direct_checks(o, c):
                 if sa.name != sb.name or type(sa) is not type(sb):
                     out.append(("deep_copy/symbol-differs", "%s/%s" % (sa.name, sb.name)))
                 m[id(sa)] = sb
+                if isinstance(sa, S.DataSymbol) and sa.initial_value is not None and sb is not sa \
+                        and isinstance(sb, S.DataSymbol) and sb.initial_value is not None:
+                    ia = {id(x) for x in sa.initial_value.walk(N.Node)}
+                    if any(id(x) in ia for x in sb.initial_value.walk(N.Node)):
+                        out.append(("DataSymbol.copy/initial-value-node-shared", sa.name))
+            own_a = {id(x) for _, x in la}
+            own_b = {id(x) for _, x in lb}
+            for (_, sa), (_, sb) in zip(la, lb):
+                if isinstance(sa.interface, S.ImportInterface) and id(sa.interface.container_symbol) in own_a:
+                    if not (isinstance(sb.interface, S.ImportInterface)
+                            and id(sb.interface.container_symbol) in own_b):
+                        out.append(("deep_copy/import-container-not-rebound", sa.name))
             la, lb = ta.argument_list, tb.argument_list
             if [x.name for x in la] != [x.name for x in lb] or any(m.get(id(x)) is not y for x, y in zip(la, lb)):
                 out.append(("deep_copy/argument-list-not-own", type(a).__name__))
@@ -680,7 +711,7 @@ def reach_paths(root, ser):
                 if type(s).__name__ in TYPED:
                     try:
                         _, _, _, kinds = ser.collect(s.datatype, lambda x: 0, lambda e: 0)
-                    except OutOfSubset:
+                    except Exception:                           # noqa  (edited trees may hold odd datatypes)
                         kinds = []
                     for kind, obj in kinds:
                         if isinstance(obj, N.Node):
@@ -828,7 +859,7 @@ def random_edit(rng, a, allow_inplace, counter):
             cands = []
             for _, s in data_syms:
                 if isinstance(s.datatype, S.ArrayType):
-                    for d in s.datatype.shape:
+                    for d in s.datatype._shape:
                         if isinstance(d, S.ArrayType.ArrayBounds) and type(d.upper) is N.Reference:
                             cands.append((s, d.upper))
             targets = [t for _, t in data_syms if not t.is_array]
@@ -905,7 +936,13 @@ def replay_witnesses(ctx):
     for key, src, ed in WITNESSES:
         t = FortranReader().psyir_from_source(src)
         r = t.walk(N.Routine)[0]
-        c = r.copy()
+        try:
+            c = r.copy()
+        except Exception as e:                                  # noqa
+            ctx.finding("Node.copy/raises:%s" % type(e).__name__, "copy() raises on a valid tree",
+                        {"source": src, "subtree": "Routine", "error": str(e).split("\n")[0][:300],
+                         "replay": "FortranReader().psyir_from_source(source).walk(Routine)[0].copy()"})
+            continue
         if ed[0] == "eq":
             if not (c == r):
                 k = why_not_equal(r, c)
@@ -974,8 +1011,9 @@ def run_case(ctx, rng, src, feats, prog_idx, tree, ser, n, results, counter):
     try:
         c = n.copy()
     except Exception as e:                                      # noqa
-        ctx.finding("Node.copy/raises:%s:%s" % (type(e).__name__, kname), "copy() raises on a valid tree",
-                    {"source": src, "subtree": kname, "abs_position": pos, "error": str(e)[:300]})
+        results["direct"].append(("Node.copy/raises:%s" % type(e).__name__,
+                                  "copy() raises on a valid tree: " + str(e).split("\n")[0][:300], src, kname, pos))
+        ctx.count((hashlib.sha1(src.encode()).hexdigest(), pos), nontrivial=False)
         return
     text_c = write_tree(c)
     ctx.hist("subtree_kind", kname)
@@ -1012,7 +1050,10 @@ def run_case(ctx, rng, src, feats, prog_idx, tree, ser, n, results, counter):
             # fresh pair for every sequence
             tree2 = _reread(src, results["decor_seed"][prog_idx])
             o2 = tree2.walk(N.Node)[pos]
-            c2 = o2.copy()
+            try:
+                c2 = o2.copy()
+            except Exception:                                   # noqa  (already reported above for this subtree)
+                continue
             a, b_root, b = (o2, c2, c2) if side == "original" else (c2, tree2, o2)
             allow_inplace = rng.random() < 0.25
             whole = side == "copy" and rng.random() < results["whole_root"]
@@ -1103,8 +1144,8 @@ def run(ctx):
     ctx.log("witnesses replayed")
 
     rng = ctx.rng("gen")
-    n_prog = ctx.pick(12, 160)
-    per_prog = ctx.pick(8, 14)
+    n_prog = ctx.pick(22, 160)
+    per_prog = ctx.pick(9, 14)
     results = {"cases": [], "meta": [], "broken": [], "direct": [], "indep": [], "decor_seed": {},
                "trials": ctx.pick(1, 2), "seq_len": ctx.pick(4, 6), "whole_root": ctx.pick(0.5, 1.0)}
     counter = [0]
@@ -1128,6 +1169,10 @@ def run(ctx):
             out_of_subset += 1
             ctx.hist("out_of_subset", str(e))
             continue
+        if max(len(ser.nid), len(ser.sid), len(ser.oid)) >= OFF - 500:
+            out_of_subset += 1
+            ctx.hist("out_of_subset", "program too large for the id offsets")
+            continue
         for n in pick_subtrees(rng, tree, per_prog):
             run_case(ctx, rng, src, feats, k, tree, ser, n, results, counter)
     ctx.notes["programs"] = n_prog
@@ -1136,10 +1181,13 @@ def run(ctx):
     header = "From PV Require Import C15.Model.\nOpen Scope N_scope."
     cases = results["cases"]
     ctx.log("implementation side done: %d cases; evaluating the model (vm_compute)" % len(cases))
-    bad_ref = ctx.coq_eval_failing(header, "case", "refines", cases, shard=ctx.pick(25, 40))
-    ctx.log("refines evaluated")
-    # exact agreement is informational (how often the implementation is stricter than the model)
-    bad_exact = ctx.coq_eval_failing(header, "case", "agrees", cases, shard=ctx.pick(25, 40)) if ctx.thorough else list(bad_ref)
+    # exact agreement implies refinement: evaluate `agrees` everywhere, `refines` only where it fails
+    bad_exact = ctx.coq_eval_failing(header, "case", "agrees", cases, shard=ctx.pick(25, 40))
+    ctx.log("agrees evaluated: %d inexact" % len(bad_exact))
+    bad_ref = []
+    if bad_exact:
+        sub = ctx.coq_eval_failing(header, "case", "refines", [cases[i] for i in bad_exact], shard=ctx.pick(25, 40))
+        bad_ref = [bad_exact[j] for j in sub]
     ctx.cov["disagreements_checked"] = len(bad_ref)
     ctx.notes["cases_where_implementation_is_stricter_than_model"] = len([i for i in bad_exact if i not in bad_ref])
     ctx.log("cases=%d refines-failures=%d exact-disagreements=%d broken-copies=%d direct-failures=%d "
@@ -1147,31 +1195,42 @@ def run(ctx):
                                           len(results["direct"]), len(results["indep"])))
 
     # ---------------- verdicts: concrete failures of the property on the implementation
+    # (one report per reason key: the first instance is the replay; the count goes to the evidence)
     concrete = 0
+    reported = set()
+
+    def report(key, what, replay):
+        ctx.hist("failure_key", key)
+        if key not in reported:
+            reported.add(key)
+            ctx.finding(key, what, replay)
+
     for key, detail, src, kname, pos in results["direct"]:
         concrete += 1
-        ctx.finding(key, detail.split("\n")[0][:120],
-                    {"property": "C15", "source": src, "subtree": kname, "abs_position": pos, "detail": detail,
-                     "replay": "n = FortranReader().psyir_from_source(source).walk(Node)[abs_position]; c = n.copy(); "
-                               "evaluate ==, node identities, and `ref.symbol is copy_table.lookup(name)`"})
+        report(key, detail.split("\n")[0][:120],
+               {"property": "C15", "source": src, "subtree": kname, "abs_position": pos, "detail": detail,
+                "replay": "n = FortranReader().psyir_from_source(source).walk(Node)[abs_position]; c = n.copy(); "
+                          "evaluate ==, node identities, and `ref.symbol is copy_table.lookup(name)`"})
     for src, kname, pos, why in results["broken"]:
         concrete += 1
-        ctx.finding("Node.copy/structure-differs:" + kname, why,
-                    {"property": "C15", "source": src, "subtree": kname, "abs_position": pos, "detail": why})
+        report("Node.copy/structure-differs:" + kname, why,
+               {"property": "C15", "source": src, "subtree": kname, "abs_position": pos, "detail": why})
+    how = ("re-read source, decorate(Random(decorate_seed)), n = walk(Node)[abs_position], c = n.copy(), apply "
+           "`edits_before` then `edit` to the named side, compare FortranWriter text")
     for f in results["indep"]:
         concrete += 1
         if f["safe"] and not f["inplace"]:
             # covered by C15_copy_independent_partial: cannot happen unless the code changed
-            ctx.violation(dict(f, property="C15", broken="theorem-covered case: valid edit on one side changed the other "
-                                                         "side's written code although no datatype mentions a copied symbol",
-                               replay="re-read source, decorate(Random(decorate_seed)), n = walk(Node)[abs_position], "
-                                      "c = n.copy(), apply `edits_before` then `edit` to the named side, compare FortranWriter text"))
+            ctx.hist("failure_key", "theorem-covered:" + "|".join(f["keys"]))
+            if "theorem-covered" not in reported:
+                reported.add("theorem-covered")
+                ctx.violation(dict(f, property="C15", replay=how,
+                                   broken="theorem-covered case: valid edit on one side changed the other side's written "
+                                          "code although no datatype mentions a copied symbol"))
             continue
         for key in f["keys"]:
-            ctx.finding(key, "edit of the %s changes the written code of the other tree" % f["side_edited"],
-                        dict(f, property="C15",
-                             replay="re-read source, decorate(Random(decorate_seed)), n = walk(Node)[abs_position], "
-                                    "c = n.copy(), apply `edits_before` then `edit` to the named side, compare FortranWriter text"))
+            report(key, "edit of the %s changes the written code of the other tree" % f["side_edited"],
+                   dict(f, property="C15", replay=how))
         ctx.hist("independence_failure", "|".join(f["keys"]))
     ctx.notes["concrete_property_failures_seen"] = concrete
 
